@@ -10,3 +10,4 @@ import Solvor.Sat.Theorems
 #print axioms Solvor.Sat.resolve_sound
 #print axioms Solvor.Sat.learn_chain_sound
 #print axioms Solvor.Sat.entailsB_iff
+#print axioms Solvor.Sat.cdcl_returns_models_partial
